@@ -357,9 +357,20 @@ def run(repo: Repo, chk: Check):
             g = [(norm(t), p) for t, p in mcfg.guards(n.id) if isinstance(t, ast.expr)]
             exits.append((n, g))
     allowed = 0
+    mrd = ReachingDefs(mcfg)
     for n, g in exits:
         ok = ("line", False) in g or ("line == 'EXIT'", True) in g or ("not line", True) in g
         allowed += ok
+        # the end-of-input test must look at the raw readline() result: a stripped blank line is not end of input
+        for t, p in mcfg.guards(n.id):
+            if isinstance(t, ast.Name) and p is False or isinstance(t, ast.UnaryOp) and isinstance(t.op, ast.Not) and isinstance(t.operand, ast.Name) and p is True:
+                nm = t if isinstance(t, ast.Name) else t.operand
+                tids = [x.id for x in mcfg.nodes_of(nm)]
+                ds = mrd.at(tids[0], nm.id) if tids else []
+                raw = bool(ds) and all(d.kind == "assign" and d.value is not None and norm(d.value).endswith(".readline()") for d in ds)
+                chk.judge("R14.c", "mod_daemon:main:end of input is decided on the unstripped line", raw,
+                          f"the end-of-input test looks at {[norm(d.value) if d.value is not None else d.kind for d in ds]}: an empty or blank request line "
+                          f"would be taken for end of input and the daemon would stop answering", None, f"{path}:{n.ast.lineno}")
         chk.judge("R14.c", f"mod_daemon:main:loop exit {n.kind} under {g[-1] if g else None}", ok,
                   f"the request loop is left by a {n.kind} that is not guarded by end-of-input or EXIT (guards {g})", None, f"{path}:{n.ast.lineno}")
     chk.judge("R14.c", "mod_daemon:main:loop is 'while True' with EOF and EXIT exits", isinstance(loop.test, ast.Constant) and loop.test.value is True and allowed >= 2,
